@@ -74,23 +74,24 @@ func c15Router(target string) c15Route {
 }
 
 type c15State struct {
-	srv       *olareg.Server
-	kind      string
-	dirStore  bool
-	readOnly  bool
-	root      string
-	healthy   map[string]bool // repositories whose storage the generator did not corrupt
-	corrupt   map[string]bool
-	sessions  []string // live session ids of r1
-	dead      []string
-	digests   []string
-	tags      []string
-	present   map[string]bool // blobs present in r1
-	manifests map[string]bool
-	img       []byte
-	idx       []byte
-	dirty     map[string]bool // repositories that received a successful write during the case
-	uncertain map[string]bool // session ids whose liveness this oracle no longer knows
+	srv         *olareg.Server
+	kind        string
+	dirStore    bool
+	readOnly    bool
+	memOverRoot bool
+	root        string
+	healthy     map[string]bool // repositories whose storage the generator did not corrupt
+	corrupt     map[string]bool
+	sessions    []string // live session ids of r1
+	dead        []string
+	digests     []string
+	tags        []string
+	present     map[string]bool // blobs present in r1
+	manifests   map[string]bool
+	img         []byte
+	idx         []byte
+	dirty       map[string]bool // repositories that received a successful write during the case
+	uncertain   map[string]bool // session ids whose liveness this oracle no longer knows
 }
 
 // certainlyAbsent: the digest cannot be in the repository (never pushable from the generator's bodies, or the
@@ -113,8 +114,8 @@ var c15Cfg = []byte("{}")
 // c15Prepare builds one of the prepared states.
 func c15Prepare(t *rapid.T) (*c15State, func()) {
 	s := &c15State{healthy: map[string]bool{}, corrupt: map[string]bool{}, present: map[string]bool{}, manifests: map[string]bool{}, dirty: map[string]bool{}, uncertain: map[string]bool{}}
-	s.kind = rapid.SampledFrom([]string{"empty", "populated", "populated", "populated-sessions", "read-only", "dir-corrupt-legacy"}).Draw(t, "state")
-	s.dirStore = rapid.Bool().Draw(t, "dirStore") || s.kind == "dir-corrupt-legacy" || s.kind == "read-only"
+	s.kind = rapid.SampledFrom([]string{"empty", "populated", "populated", "populated-sessions", "read-only", "dir-corrupt-legacy", "mem-over-root"}).Draw(t, "state")
+	s.dirStore = rapid.Bool().Draw(t, "dirStore") || s.kind == "dir-corrupt-legacy" || s.kind == "read-only" || s.kind == "mem-over-root"
 	store := config.StoreMem
 	if s.dirStore {
 		store = config.StoreDir
@@ -181,6 +182,13 @@ func c15Prepare(t *rapid.T) (*c15State, func()) {
 		s.dead = append(s.dead, path.Base(lu.Path))
 	}
 	switch s.kind {
+	case "mem-over-root":
+		// the content was written by a directory store; a memory store is now layered over that directory
+		_ = srv.Close()
+		conf.Storage.StoreType = config.StoreMem
+		s.srv = olareg.New(conf)
+		s.dirStore = false
+		s.memOverRoot = true
 	case "read-only":
 		_ = srv.Close()
 		conf.Storage.ReadOnly = bp(true)
@@ -211,6 +219,10 @@ func c15Gen(t *rapid.T, s *c15State) c15Req {
 	q := c15Req{opt: &reqOpt{hdr: map[string]string{}}}
 	q.method = rapid.SampledFrom([]string{"GET", "GET", "HEAD", "PUT", "POST", "PATCH", "DELETE", "OPTIONS", "TRACE", "FOO"}).Draw(t, "method")
 	repos := []string{"r1", "r1", "r1", "r2", "r1/sub", "R1", "r1/../r2", "index.json", "blobs", "oci-layout/x", "a//b", ".", "r1/blobs/uploads", "corrupt", "legacy", "r_1", "r1-", "-r1", "r1..x", strings.Repeat("a", 256), strings.Repeat("a", 255) + "/b", "r1%2fsub", "r1%00"}
+	if len(s.digests) > 0 {
+		// a name that is, on disk, a path inside the layout of r1 (a blob file, the blobs directory)
+		repos = append(repos, "r1/blobs/sha256/"+s.digests[0][7:], "r1/blobs/sha256", "r1/blobs")
+	}
 	repo := rapid.SampledFrom(repos).Draw(t, "repo")
 	if !c15NameRE.MatchString(repo) || len(repo) > 100 {
 		q.odd = true
@@ -367,7 +379,7 @@ func c15Property(t *rapid.T, st *Stats) {
 				}
 			}
 			key := "5xx"
-			if long && s.dirStore {
+			if long && (s.dirStore || s.memOverRoot) {
 				key = "5xx-name-too-long" // finding 28
 			}
 			fail(key, "status %d for %s %s (state %s, repository %q healthy)", r.code, q.method, trunc([]byte(q.target), 300), s.kind, rt.repo)
@@ -413,7 +425,8 @@ func c15Property(t *rapid.T, st *Stats) {
 				reserved = true
 			}
 		}
-		if s.dirStore && len(rt.repo) > 255 {
+		onDisk := s.dirStore || s.memOverRoot // a memory store over a directory refuses the same names as the directory store
+		if onDisk && len(rt.repo) > 255 {
 			reserved = true // names the directory store cannot hold are refused like reserved ones
 		}
 		get := q.method == "GET" || q.method == "HEAD"
@@ -424,7 +437,7 @@ func c15Property(t *rapid.T, st *Stats) {
 			if r.code != 200 {
 				fail("ping-status", "GET /v2/ answered %d", r.code)
 			}
-		case reserved && s.dirStore && rt.endpoint == "tags" && get:
+		case reserved && onDisk && rt.endpoint == "tags" && get:
 			if r.code != 400 || !hasCode("NAME_INVALID") {
 				fail("code-name-invalid", "reserved repository name %q: status %d body %q, want 400 NAME_INVALID", rt.repo, r.code, trunc(r.body, 120))
 			}
